@@ -14,10 +14,10 @@ MODES = ["ising", "generic"]
 # (module, theorems) — the two halves cannot be imported into one Lean file (Qmc.maskOp / Qmc.Leg / Qmc.absR clashes)
 THEOREMS = [
     ("QmcProofs.SamplerStep", ["Qmc.Sampler." + t for t in [
-        "freeRefresh_eq", "isingTimestepWith_eq", "isingTimestepWith_pres", "isingRunWith_inv", "isingTraceWith_inv",
-        "genericTimestepWith_pres", "genericRunWith_inv", "loopK_stepOK"]]),
+        "freeRefresh_eq", "isingTimestepWith_eq", "isingTimestepWith_pres", "isingTraceWith_inv", "isingRunWith_inv",
+        "loopUpdate_loopCert", "stepLoop_eq", "loopK_stepOK", "genericTimestepWith_pres", "genericRunWith_inv"]]),
     ("QmcProofs.SamplerCluster", ["Qmc.Sampler." + t for t in [
-        "clusterK_flipCert", "clusterK_keepsWeight_ising", "clusterK_keepsWeight_generic"]]),
+        "clusterK_flipCert", "clusterK_clusterCert", "ising_clusterCert", "generic_clusterCert"]]),
 ]
 
 RULE = ("whole-timestep trajectories: real Ising samplers on 2..6 spins (multi-edges, isolated spins, J of both signs k/8, "
